@@ -72,6 +72,11 @@ def main():
         for impl in ('c', 'py'):
             plan.append(dict(fam=fam, impl=impl, emb='mid', nkeys=3, subclassed=True,
                              seed=ck.seed * 100 + 50 + len(plan), maxpairs=(1200 if impl == 'c' else 500) if quick else 20000))
+    # ... and of operands that live in a data manager, stored and evicted: every leaf a ghost when the operation starts
+    for fam in (['OO', 'II'] if quick else ['OO', 'II', 'LF', 'fs', 'QQ', 'IO']):
+        for impl in ('c', 'py'):
+            plan.append(dict(fam=fam, impl=impl, emb='mid', nkeys=3, ghost=True, pure=(impl == 'py'),
+                             seed=ck.seed * 100 + 80 + len(plan), maxpairs=(400 if impl == 'c' else 150) if quick else 8000))
     run_setops(ck, plan, 'C10')
     ck.assumptions += ['operands hold keys of the family', 'first operand of difference and of the operators is a BTrees container']
     ck.finish(exhaustive=not quick)
